@@ -186,5 +186,16 @@ def generate():
     for nm in ("OP_1", "OP_16", "OP_CHECKMULTISIG", "OP_RETURN"):
         o.append("def %s : Nat := %d" % (nm.replace("OP_", "op").replace("CHECKMULTISIG", "CheckMultisig").replace("RETURN", "Return"),
                                           st.int_for_opcode(nm)))
+    # the curve every network's key classes are built on (create_bitcoinish_network: kwargs.get("generator", secp256k1_generator))
+    import importlib as _il
+    import pkgutil as _pk
+    import pycoin.symbols as _sy
+    gens = [_il.import_module("pycoin.symbols." + m.name).network.generator for m in _pk.iter_modules(_sy.__path__)]
+    g = gens[0]
+    same = all((x.p(), x._a, x._b, x.order(), tuple(x)) == (g.p(), g._a, g._b, g.order(), tuple(g)) for x in gens)
+    o.append("/-- parameters of `network.generator` (the same object on every network iff `generatorShared`) -/")
+    o.append("def generatorShared : Bool := %s" % ("true" if same else "false"))
+    o.append("def genP : Nat := %d\ndef genA : Nat := %d\ndef genB : Nat := %d\ndef genOrder : Nat := %d\ndef genGx : Nat := %d\ndef genGy : Nat := %d"
+             % (g.p(), g._a, g._b, g.order(), g[0], g[1]))
     o.append("\nend Pycoin.Gen.Networks\n")
     return {"Networks": "\n".join(o)}
